@@ -496,6 +496,24 @@ fn apply(st: &mut State, step: &Step, counts: &mut Vec<&'static str>) -> Result<
                 let back: &mut [u64] = m.into();
                 vcheck!(k == 0 && back.is_empty(), "layout.slice", "C-made {NULL, 0}", "C-made empty mutable slice reads back {} element(s)", k + back.len());
             }
+            {
+                // an empty slice that does point somewhere (a cursor at the end of a buffer, an
+                // empty match inside a text) keeps its position in both directions, whoever made it
+                let buf: [u32; 6] = [1, 2, 3, 4, 5, 6];
+                let k = (step.arg(1).rem_euclid(7)) as usize;
+                let at = unsafe { buf.as_ptr().add(k) };
+                let r = CSliceRef::from(&buf[k..k]);
+                let v: SliceView<u32> = unsafe { std::ptr::read(&r as *const _ as *const SliceView<u32>) };
+                vcheck!(v.data as *const u32 == at && v.len == 0, "layout.slice", "empty slice", "&buf[{}..{}] seen from C as data at offset {:?}, len {}", k, k, (v.data as usize).wrapping_sub(buf.as_ptr() as usize) / 4, v.len);
+                vcheck!(r.as_slice().as_ptr() == at, "layout.slice", "empty slice", "an empty CSliceRef at offset {} reads back at another address", k);
+                let made: CSliceRef<u32> = unsafe { cview::view(SliceView::<u32> { data: at as *mut u32, len: 0 }) };
+                let back: &[u32] = made.into();
+                vcheck!(back.as_ptr() == at && back.is_empty(), "layout.slice", "empty slice", "a C-made empty slice {{buf+{}, 0}} reads back at another address", k);
+                let text = "key=value";
+                let e = &text[4..4];
+                let back = <&str>::try_from(CSliceRef::from(e)).unwrap_or("?");
+                vcheck!(back.as_ptr() == e.as_ptr() && back.is_empty(), "layout.slice", "empty str", "an empty &str inside a text reads back at another address");
+            }
             Ok("Tags".into())
         }
         _ => Ok(format!("unknown-op {}", step.op)),
